@@ -1228,6 +1228,29 @@ def read_all_idle_branches_share_rekey_test():
     return True
 
 
+def kex_init_marks_exchange_open():
+    """AST of Transport._send_kex_init: `self.in_kex = True` is an unconditional top-level statement of the function
+    and comes before the `self._send_message(...)` call that writes KEXINIT — whoever sends a KEXINIT (the run loop,
+    renegotiate_keys, or `_negotiate_keys` answering the peer's) marks the exchange open, so the run loop's
+    `need_rekey() and not in_kex` test cannot start a second exchange inside a running one.  None if unreadable."""
+    import paramiko.transport as T
+
+    try:
+        tree = ast.parse(textwrap.dedent(inspect.getsource(T.Transport._send_kex_init)))
+    except (OSError, SyntaxError):
+        return None
+    fn = tree.body[0]
+    set_at = send_at = None
+    for i, st in enumerate(fn.body):
+        if (isinstance(st, ast.Assign) and len(st.targets) == 1 and ast.unparse(st.targets[0]) == "self.in_kex"
+                and isinstance(st.value, ast.Constant) and st.value.value is True and set_at is None):
+            set_at = i
+        if send_at is None and any(isinstance(n, ast.Call) and ast.unparse(n.func) == "self._send_message"
+                                   for n in ast.walk(st)):
+            send_at = i
+    return set_at is not None and send_at is not None and set_at < send_at
+
+
 def send_message_callers():
     """Every method of paramiko/transport.py that calls `self._send_message(...)` directly (bypassing the
     clear_to_send gate), as `Class.method` names in source order.  None if unreadable."""
@@ -1313,6 +1336,8 @@ def lean_channel_table(sites, takes, handlers, gate):
         "def readAllIdleBranchesShareRekeyTest : Bool := %s\n\n"
         "/-- the methods of transport.py that call `_send_message` directly (not through the clear_to_send gate) -/\n"
         "def sendMessageCallers : List String := [%s]\n\n"
+        "/-- Transport._send_kex_init sets `in_kex` unconditionally, before it writes KEXINIT -/\n"
+        "def kexInitMarksExchangeOpen : Bool := %s\n\n"
         "end PV.Generated.C11\n" % (rows, hrows, "true" if gate["rechecks_under_lock"] else "false",
                                       "true" if gate["clears_before_write"] else "false",
                                       ", ".join('("%s", "%s")' % p for p in (gate.get("overflow_tests") or [])),
@@ -1323,7 +1348,8 @@ def lean_channel_table(sites, takes, handlers, gate):
                                       "true" if gate.get("recv_sends_every_ack") else "false",
                                       "true" if gate.get("send_timeout_reads_clock") else "false",
                                       "true" if gate.get("read_all_idle_shared") else "false",
-                                      ", ".join('"%s"' % x for x in (gate.get("send_message_callers") or [])))
+                                      ", ".join('"%s"' % x for x in (gate.get("send_message_callers") or [])),
+                                      "true" if gate.get("kex_init_marks_open") else "false")
     )
 
 
@@ -1341,6 +1367,7 @@ def write_generated_c11(ctx):
     gate["send_timeout_reads_clock"] = send_timeout_reads_clock()
     gate["read_all_idle_shared"] = read_all_idle_branches_share_rekey_test()
     gate["send_message_callers"] = send_message_callers()
+    gate["kex_init_marks_open"] = kex_init_marks_exchange_open()
     ctx.extra["send_gate_facts"] = gate
     ctx.write_generated("C11", lean_channel_table(sites, takes, handlers, gate))
     return sites, takes, handlers
